@@ -92,6 +92,8 @@ pub enum SOp {
     Delegate { d: u8, v: u8, amt: u128, denom: u8 },
     Undelegate { d: u8, v: u8, amt: u128, denom: u8 },
     Redelegate { d: u8, src: u8, dst: u8, amt: u128 },
+    /// a redelegation naming a foreign denomination (must always be refused)
+    RedelegateForeign { d: u8, src: u8, dst: u8, amt: u128 },
     Withdraw { d: u8, v: u8 },
     SetWithdraw { d: u8, to: u8 },
     /// percent of the validator's stake
@@ -109,6 +111,7 @@ pub fn sop_label(o: &SOp) -> String {
         SOp::Delegate { d, v, amt, denom } => format!("delegate(d{}, v{}, {}{})", d + 1, v + 1, amt, if *denom == 0 { "" } else { " foreign" }),
         SOp::Undelegate { d, v, amt, denom } => format!("undelegate(d{}, v{}, {}{})", d + 1, v + 1, amt, if *denom == 0 { "" } else { " foreign" }),
         SOp::Redelegate { d, src, dst, amt } => format!("redelegate(d{}, v{}->v{}, {})", d + 1, src + 1, dst + 1, amt),
+        SOp::RedelegateForeign { d, src, dst, amt } => format!("redelegate(d{}, v{}->v{}, {} foreign)", d + 1, src + 1, dst + 1, amt),
         SOp::Withdraw { d, v } => format!("withdraw(d{}, v{})", d + 1, v + 1),
         SOp::SetWithdraw { d, to } => format!("set_withdraw_address(d{}, {})", d + 1, if *to == 9 { "self".to_string() } else { format!("w{}", to) }),
         SOp::Slash { v, pct } => format!("slash(v{}, {}%)", v + 1, pct),
@@ -367,6 +370,13 @@ pub fn step(app: &mut SApp, nm: &Names, st: &SState, op: &SOp, cfg: &Cfg, ops_al
             )
             .map(|_| ())
             .map_err(|e| format!("{:#}", e)),
+        SOp::RedelegateForeign { d, src, dst, amt } => app
+            .execute(
+                d_addr(*d),
+                StakingMsg::Redelegate { src_validator: nm.validators[*src as usize].clone(), dst_validator: nm.validators[*dst as usize].clone(), amount: coin(*amt, FOREIGN) }.into(),
+            )
+            .map(|_| ())
+            .map_err(|e| format!("{:#}", e)),
         SOp::Withdraw { d, v } => app
             .execute(d_addr(*d), DistributionMsg::WithdrawDelegatorReward { validator: nm.validators[*v as usize].clone() }.into())
             .map(|_| ())
@@ -524,6 +534,9 @@ pub fn step(app: &mut SApp, nm: &Names, st: &SState, op: &SOp, cfg: &Cfg, ops_al
                     h.rewards.remove(&(*d, *v));
                 }
             }
+        }
+        SOp::RedelegateForeign { .. } => {
+            must_fail("foreign-denom", report);
         }
         SOp::Redelegate { d, src, dst, amt } => {
             let known = (*src as usize) < 2 && (*dst as usize) < 2;
@@ -770,7 +783,7 @@ fn op_kind(o: &SOp) -> &'static str {
     match o {
         SOp::Delegate { .. } => "delegate",
         SOp::Undelegate { .. } => "undelegate",
-        SOp::Redelegate { .. } => "redelegate",
+        SOp::Redelegate { .. } | SOp::RedelegateForeign { .. } => "redelegate",
         SOp::Withdraw { .. } => "withdraw",
         SOp::SetWithdraw { .. } => "set-withdraw-address",
         SOp::Slash { .. } => "slash",
@@ -979,6 +992,9 @@ pub fn invalid_ops() -> Vec<SOp> {
         SOp::Redelegate { d: 1, src: 0, dst: 1, amt: 1_000 },
         SOp::Redelegate { d: 0, src: 2, dst: 0, amt: 1 },
         SOp::Redelegate { d: 0, src: 0, dst: 2, amt: 1 },
+        SOp::RedelegateForeign { d: 0, src: 0, dst: 1, amt: 1 },
+        SOp::RedelegateForeign { d: 1, src: 0, dst: 1, amt: 1 },
+        SOp::RedelegateForeign { d: 1, src: 1, dst: 0, amt: 2 },
         SOp::Slash { v: 0, pct: 150 },
         SOp::Slash { v: 0, pct: 101 },
         SOp::Slash { v: 2, pct: 50 },
